@@ -1,22 +1,22 @@
 // Kani concrete playback for harness k10_acc_sum_b_y (module c10k.rs)
 // replay: vcheck.py --replay /verif/replays/C10/k10_acc_sum_b_y.playback.rs
 #[test]
-fn kani_concrete_playback_k10_acc_sum_b_y_9854574124021418297() {
+fn kani_concrete_playback_k10_acc_sum_b_y_6746113337685672322() {
     let concrete_vals: Vec<Vec<u8>> = vec![
-        // 3
-        vec![3],
-        // 252
-        vec![252],
-        // 252
-        vec![252],
-        // 252
-        vec![252],
-        // 3ul
-        vec![3, 0, 0, 0, 0, 0, 0, 0],
-        // 7ul
-        vec![7, 0, 0, 0, 0, 0, 0, 0],
+        // 255
+        vec![255],
+        // 255
+        vec![255],
+        // 255
+        vec![255],
+        // 255
+        vec![255],
         // 0ul
         vec![0, 0, 0, 0, 0, 0, 0, 0],
+        // 31ul
+        vec![31, 0, 0, 0, 0, 0, 0, 0],
+        // 7ul
+        vec![7, 0, 0, 0, 0, 0, 0, 0],
     ];
     kani::concrete_playback_run(concrete_vals, k10_acc_sum_b_y);
 }
